@@ -49,7 +49,7 @@ def plan(tier, seed):
 
 def features(script):
     f = {"guarded_ut": 0, "ends": 0, "moves": 0, "uts": set(), "loops": 0}
-    ut_names = {"u", "v", "k1", "k2", "ytmp", "acc", "u2", "v2", "<state>y", "<p>u", "<state>w"}
+    ut_names = {"u", "v", "k1", "k2", "ytmp", "acc", "kinv", "u2", "v2", "<state>y", "<p>u", "<state>w"}
 
     def walk(ops, guarded):
         for op in ops:
